@@ -290,6 +290,32 @@ def stream(domain_id, items):
     MON.emit("pull_end", domain_id, index)
 
 
+class StreamIterator:
+    """The same one-shot stream as an iterator object that is not a generator."""
+
+    def __init__(self, domain_id, items):
+        self._it = stream(domain_id, items)
+
+    def __iter__(self):
+        return self
+
+    def __next__(self):
+        return next(self._it)
+
+
+def one_shot(kind, domain_id, items):
+    """A one-shot stream of the given flavour: generator, iterator object, map object, zip-derived, list iterator."""
+    if kind == "iter":
+        return StreamIterator(domain_id, items)
+    if kind == "map":
+        return map(lambda x: x, stream(domain_id, items))
+    if kind == "chain":
+        import itertools
+
+        return itertools.chain(stream(domain_id, items))
+    return stream(domain_id, items)
+
+
 def endless_stream(domain_id, cls, base_serial, pattern):
     """An unbounded domain stream: item i has a = pattern[i % len(pattern)]."""
     index = 0
